@@ -170,6 +170,19 @@ def check_fn(case):
         l = call(Conditions.safe_load, p / "c.json")
         require(not is_raised(l), "Conditions.safe_load raised %r", l)
         _cmp_cond(cond, l, "conditions")
+        # the same file names written again with other content (a re-fit saved over the old one) and loaded again
+        f2 = PervaporationFunction(n=f.n, m=f.m, alpha=f.alpha * 1.5 + 0.25, a=[v * 0.5 - 1.0 for v in f.a], b=[v * 2.0 + 1.0 for v in f.b])
+        spec2 = dict(case["cond"], area=case["cond"]["area"] * 3.0, amount=case["cond"]["amount"] * 0.5)
+        cond2 = build.conditions(spec2)
+        for what, saver, loader, name, cmp_, obj in (
+                ("binary function", f2.save, PervaporationFunction.load, "f.pv", _cmp_fn, f2),
+                ("JSON function", f2.safe_save, PervaporationFunction.safe_load, "f.json", _cmp_fn, f2),
+                ("conditions", cond2.safe_save, Conditions.safe_load, "c.json", _cmp_cond, cond2)):
+            out = call(saver, p / name)
+            require(not is_raised(out), "saving a %s over an existing file raised %r", what, out)
+            g = call(loader, p / name)
+            require(not is_raised(g), "loading a %s saved over an existing file raised %r", what, g)
+            cmp_(obj, g, what + " saved over an earlier file of the same name (already loaded once)")
     finally:
         shutil.rmtree(d, ignore_errors=True)
     return {"nontrivial": True, "classes": ["n=%d,m=%d" % (case["n"], case["m"])]}
